@@ -1,10 +1,11 @@
 """Restricted Python -> loop-IR translator (DESIGN 2.3(c)) and the exact tie `loopir_tie(ctx, names)`.
 
 The explicit-loop numerical routines of spectrum (LEVINSON, arburg, CORRELATION, HERMTOEP, TOEPLITZ, levup,
-levdown, the psi loop of minvar) are translated, on every run, from the source text of the SNAPSHOT into terms of the
+levdown, the psi loop of minvar, and Marple's fast recursions arcovar_marple / modcovar_marple) are translated, on every run, from the source text of the SNAPSHOT into terms of the
 deep-embedded IR of coq/Model/LoopIR.v.  The IR programs are run by the Coq interpreter `run` at the exact instance
 QcC (vm_compute) and compared with ZERO tolerance against the hand-written Gallina models (coq/Model/LoopIRTie.v):
-same outcome constructor, every array entry, every scalar.
+same outcome constructor, every array entry, every scalar.  The Marple routines are in addition compared, exactly, with the
+least-squares model of Model/Ls.v (coq/Model/LoopIRMarple.v), and their orders 0 and 1 are theorems (coq/Proofs/LoopIRMarple0.v).
 
 For LEVINSON, CORRELATION, levup, levdown, HERMTOEP and minvar_psi the equality `run program args = model` is in addition a THEOREM for
 all inputs (coq/Proofs/LoopIR<Name>.v, table THEOREMS below): it is instantiated in the generated file whenever the regenerated program
@@ -13,7 +14,7 @@ text equals the reference text kept in the proof file; otherwise it is not claim
 The translator is fail-closed: an `ast` node outside the recognised subset aborts the translation of that function
 (`Untranslatable`), which the tie reports through ctx.broken as "translation of <fn> failed: <node>".  Nothing is
 skipped silently; what is ignored is listed here: docstrings / bare string statements, `logging.<f>(...)` statements
-whose arguments are formatting only, and, for a function translated by REGION (minvar), the statements named
+whose arguments are formatting (or slices of names) only, exception objects of a known class that are built but not raised, and, for a function translated by REGION (minvar), the statements named
 verbatim in its spec (they must be present, textually unchanged, in the given order).
 """
 import ast, hashlib, os, re, sys, time
@@ -45,6 +46,8 @@ SPECS = {
     'TOEPLITZ': dict(module='toeplitz'),
     'arburg': dict(module='burg'),
     'CORRELATION': dict(module='correlation', oracles=('pylab_rms_flat',)),
+    'arcovar_marple': dict(module='covar'),
+    'modcovar_marple': dict(module='modcovar'),
     # the psi loop of minvar: the statements below are NOT translated; they must be present verbatim, in this order.
     # Program parameters are the variables the region reads (order, NFFT and the arburg results A, P); it returns psi.
     'minvar_psi': dict(module='minvar', function='minvar', params=('order', 'NFFT', 'A', 'P'), result='psi',
@@ -154,6 +157,10 @@ class FnTranslator:
             if isinstance(n, ast.Assign) and isinstance(n.value, ast.Call) and isinstance(n.value.func, ast.Name) \
                     and n.value.func.id in self.crit_class and len(n.targets) == 1 and isinstance(n.targets[0], ast.Name):
                 self.crit_objs.add(n.targets[0].id)
+        self.find_list_vars(fn)
+        # names bound to a list display / comprehension somewhere: Python lists; `+`, `*`, `+=` on them concatenate / repeat, the IR's arrays do not
+        self.display_vars = {t.id for n in ast.walk(fn) if isinstance(n, ast.Assign) and isinstance(n.value, (ast.List, ast.ListComp))
+                             for t in n.targets if isinstance(t, ast.Name)}
         if 'params' in spec:
             params = list(spec['params']); defaults = [None] * len(params)
         else:
@@ -189,6 +196,38 @@ class FnTranslator:
         else:
             stm = self.block(body, top=True)
         return Program(self.progname, fn.name, self.params, defaults, dict(self.slots), stm, self.nodes)
+
+    def find_list_vars(self, fn):
+        """Python lists that are appended to (`pbv = []` ... `pbv.append(pb)` ... `return ..., pbv`).  A name on which
+        `.append` is called must be a local that is bound ONLY by plain assignments of list displays and read ONLY as the
+        receiver of `.append(<one value>)` statements and as a direct element of a `return`: then list and 1-D array cannot be
+        told apart by the program (no `+`, `*`, indexing, len, aliasing ...) and the IR keeps it as an array of scalars."""
+        self.list_vars = set()
+        for n in ast.walk(fn):
+            if isinstance(n, ast.Call) and isinstance(n.func, ast.Attribute) and n.func.attr == 'append':
+                if not isinstance(n.func.value, ast.Name):
+                    self.fail(n, 'append on an expression')
+                self.list_vars.add(n.func.value.id)
+        if not self.list_vars:
+            return
+        argnames = {x.arg for x in fn.args.args}
+        ok_nodes = set()
+        for n in ast.walk(fn):
+            if isinstance(n, ast.Expr) and isinstance(n.value, ast.Call) and isinstance(n.value.func, ast.Attribute) \
+                    and n.value.func.attr == 'append' and isinstance(n.value.func.value, ast.Name):
+                ok_nodes.add(id(n.value.func.value))
+            if isinstance(n, ast.Return) and n.value is not None:
+                for el in (n.value.elts if isinstance(n.value, ast.Tuple) else [n.value]):
+                    if isinstance(el, ast.Name):
+                        ok_nodes.add(id(el))
+            if isinstance(n, ast.Assign) and len(n.targets) == 1 and isinstance(n.targets[0], ast.Name) and isinstance(n.value, ast.List):
+                ok_nodes.add(id(n.targets[0]))
+        for n in ast.walk(fn):
+            if isinstance(n, ast.Name) and n.id in self.list_vars:
+                if n.id in argnames or n.id in self.spec.get('params', ()):
+                    self.fail(n, 'append to a parameter')
+                if id(n) not in ok_nodes:
+                    self.fail(n, 'a list that is appended to may only be bound to list displays, appended to and returned (%s)' % n.id)
 
     def default(self, d):
         if isinstance(d, ast.Constant) and (d.value is None or isinstance(d.value, (bool, int, float, str))):
@@ -227,7 +266,7 @@ class FnTranslator:
         def stmt(s, shared):
             shared = set(shared)
             for n in ast.walk(s) if not isinstance(s, (ast.If, ast.For)) else []:
-                if isinstance(n, ast.Call) and isinstance(n.func, ast.Attribute) and n.func.attr in ('resize', 'sort', 'fill', 'put', 'itemset'):
+                if isinstance(n, ast.Call) and isinstance(n.func, ast.Attribute) and n.func.attr in ('resize', 'sort', 'fill', 'put', 'itemset', 'append', 'extend', 'insert', 'pop', 'remove', 'reverse', 'clear'):
                     if isinstance(n.func.value, ast.Name):
                         mutate(n, n.func.value.id, shared)
                     else:
@@ -290,8 +329,11 @@ class FnTranslator:
                 if isinstance(n, ast.Call):
                     if not (isinstance(n.func, ast.Attribute) and n.func.attr == 'format' and isinstance(n.func.value, ast.Constant)):
                         self.fail(n, 'call inside a message')
+                elif isinstance(n, ast.Subscript):
+                    if not (isinstance(n.slice, ast.Slice) and isinstance(n.value, ast.Name)):      # a[lo:hi] never raises on a sequence; a[i] may
+                        self.fail(n, 'index inside a message')
                 elif not isinstance(n, (ast.Constant, ast.Name, ast.Attribute, ast.BinOp, ast.Mod, ast.Add, ast.Tuple, ast.Load, ast.JoinedStr,
-                                        ast.FormattedValue, ast.keyword)):
+                                        ast.FormattedValue, ast.keyword, ast.Slice)):
                     self.fail(n, 'unexpected node inside a message')
 
     def stmt(self, s):
@@ -316,6 +358,17 @@ class FnTranslator:
                     return 'SResize %d %s' % (x, self.expr(v.args[0]))
                 if isinstance(f, ast.Name) and f.id in self.crit_objs:
                     return self.crit_call(None, v)
+                if isinstance(f, ast.Attribute) and f.attr == 'append' and isinstance(f.value, ast.Name) and f.value.id in self.list_vars:
+                    if len(v.args) != 1 or v.keywords or isinstance(v.args[0], ast.Starred):
+                        self.fail(s, 'append with unexpected arguments')
+                    x = self.lookup(f.value.id)
+                    if x is None:
+                        x = self.slot_of_local(f.value.id)      # appended to before any binding: UnboundLocal if executed
+                    return 'SAppend %d %s' % (x, self.expr(v.args[0]))
+                if isinstance(f, ast.Name) and f.id in EXC and f.id not in self.assigned:
+                    # `ValueError("...")` as a statement: the exception object is built and DISCARDED (arcovar_marple never raises it)
+                    self.pure_format_args(v)
+                    return 'SSkip'
             self.fail(s, 'expression statement')
         if isinstance(s, ast.Pass):
             return 'SSkip'
@@ -348,6 +401,8 @@ class FnTranslator:
         if isinstance(s, ast.AugAssign):
             if type(s.op) not in BINOPS:
                 self.fail(s, 'augmented operator')
+            if self.is_pylist(s.target) or self.is_pylist(s.value):
+                self.fail(s, 'arithmetic on a Python list')
             t = s.target
             if isinstance(t, ast.Name):
                 x = self.lookup(t.id)
@@ -479,6 +534,9 @@ class FnTranslator:
         return isinstance(f, ast.Attribute) and isinstance(f.value, ast.Name) and f.value.id in self.np_names \
             and f.value.id not in self.assigned and f.attr in attrs
 
+    def is_pylist(self, e):
+        return isinstance(e, (ast.List, ast.ListComp)) or (isinstance(e, ast.Name) and e.id in self.display_vars)
+
     def is_zero_const(self, e):
         return isinstance(e, ast.Constant) and not isinstance(e.value, bool) and isinstance(e.value, (int, float)) and e.value == 0
 
@@ -515,6 +573,8 @@ class FnTranslator:
                 return '(EBin BMul %s %s)' % (x, x)
             if type(e.op) not in BINOPS:
                 self.fail(e, 'operator')
+            if self.is_pylist(e.left) or self.is_pylist(e.right):
+                self.fail(e, 'arithmetic on a Python list')
             return '(EBin %s %s %s)' % (BINOPS[type(e.op)], self.expr(e.left), self.expr(e.right))
         if isinstance(e, ast.UnaryOp):
             if isinstance(e.op, ast.USub):
@@ -631,6 +691,8 @@ class FnTranslator:
             return '(EIsRealObj %s)' % self.expr(e.args[0])
         if self.is_np(f, ('array',)) and len(e.args) == 1 and not kws:
             return '(ECopy %s)' % self.expr(e.args[0])
+        if self.is_np(f, ('asarray',)) and len(e.args) == 1 and not kws:
+            return '(ECopy %s)' % self.expr(e.args[0])     # same values; NOT fresh for the aliasing pass (asarray may return its argument)
         if self.is_np(f, ('dot',)) and len(e.args) == 2 and not kws:
             return '(EDot %s %s)' % (self.expr(e.args[0]), self.expr(e.args[1]))
         if self.is_np(f, ('insert',)) and len(e.args) == 3 and not kws:
@@ -698,16 +760,25 @@ def translate(name, source=None):
 # ---------------------------------------------------------------- self-test of the fail-closed behaviour
 SELFTEST_OK = """
 import numpy
+import logging
 def f(r, n=None):
+    L = []
+    r = numpy.asarray(r)
     if r.dtype.kind in 'iub':
         r = r.astype(float)
     A = numpy.zeros(n, dtype=complex)
     T = r[1:]
     for k in range(0, n):
+        logging.debug(A[0:2])
         A[k] = T[k] * 2. - abs(r[k]) ** 2
         if A[k].real <= 0:
             raise ValueError('x')
-    return A, T
+        if A[k].real > 1. and A[k].real <= 2:
+            pass
+        else:
+            ValueError('y')
+        L.append(A[k].real)
+    return A, T, L
 """
 SELFTEST_BAD = [            # (what, old, new): each edit must make the translator refuse
     ('store into a parameter', "        A[k] = T[k]", "        r[k] = 1\n        A[k] = T[k]"),
@@ -737,6 +808,30 @@ SELFTEST_BAD = [            # (what, old, new): each edit must make the translat
     ('promotion to another type', "r.astype(float)", "r.astype(int)"),
     ('promotion with an else branch', "        r = r.astype(float)\n", "        r = r.astype(float)\n    else:\n        r = r * 2\n"),
     ('promotion assigning another name', "        r = r.astype(float)", "        n = r.astype(float)"),
+    # T3 (Marple routines): lists that are appended to, discarded exception objects, log arguments, asarray
+    ('append to an array', "L.append(A[k].real)", "A.append(A[k].real)"),
+    ('append to a parameter', "L.append(A[k].real)", "r.append(1.)"),
+    ('appended list used in arithmetic', "    return A, T, L", "    B = L * 2\n    return A, T, L"),
+    ('appended list indexed', "    return A, T, L", "    return A, T, L[0]"),
+    ('appended list aliased', "    L = []", "    L = []\n    M = L"),
+    ('appended list bound to an array', "    L = []", "    L = numpy.zeros(2)"),
+    ('appended list is a loop variable', "    L = []", "    L = []\n    for L in range(0, 2):\n        pass"),
+    ('append of two values', "L.append(A[k].real)", "L.append(A[k].real, 1)"),
+    ('append used as a value', "L.append(A[k].real)", "z = L.append(A[k].real)"),
+    ('extend', "L.append(A[k].real)", "L.extend([A[k].real])"),
+    ('append on an expression', "L.append(A[k].real)", "(L).copy().append(A[k].real)"),
+    ('discarded exception of an unknown class', "ValueError('y')", "RuntimeError('y')"),
+    ('discarded exception with a call in its message', "ValueError('y')", "ValueError(str(A.resize(3)))"),
+    ('discarded call of an unknown function', "ValueError('y')", "check(A)"),
+    ('index inside a log argument', "logging.debug(A[0:2])", "logging.debug(A[k + 7])"),
+    ('call inside a log argument', "logging.debug(A[0:2])", "logging.debug(A.resize(3))"),
+    ('slice of an expression inside a log argument', "logging.debug(A[0:2])", "logging.debug(numpy.zeros(3)[0:2])"),
+    ('asarray with a dtype', "numpy.asarray(r)", "numpy.asarray(r, dtype=complex)"),
+    ('store through an asarray alias', "    r = numpy.asarray(r)", "    r = numpy.asarray(r)\n    Q = numpy.asarray(A)\n    Q[0] = 1\n    A[0] = 2"),
+    ('list concatenation by +=', "L.append(A[k].real)", "L += [A[k].real]"),
+    ('list repetition', "    L = []", "    L = []\n    W = [1., 2.] * 2"),
+    ('list concatenation of a display variable', "    L = []", "    L = []\n    W = [1., 2.]\n    V = W + W"),
+    ('comparison with a string ordering', "A[k].real > 1.", "A[k].real > 'a' > 0"),
 ]
 
 
@@ -850,6 +945,7 @@ def outs(*vals):
 class Cases:
     def __init__(self, fn):
         self.fn = fn; self.exact = []; self.meta = []; self.impl = []; self.impl_meta = []
+        self.spec = []; self.spec_meta = []; self.spec_descr = ''      # exact comparison with an independent exact specification model
 
     def add(self, text, impl=None, **meta):
         """impl = (outputs, exception-name) of the implementation on this input: recorded in the distribution only"""
@@ -859,6 +955,9 @@ class Cases:
 
     def add_impl(self, text, **meta):
         self.impl.append(text); meta['function'] = self.fn; meta['case'] = text[:1500]; self.impl_meta.append(meta)
+
+    def add_spec(self, text, **meta):
+        self.spec.append(text); meta['function'] = self.fn; meta['case'] = text[:1500]; self.spec_meta.append(meta)
 
 
 # ---------------------------------------------------------------- generators (one per function)
@@ -1171,10 +1270,103 @@ def gen_minvar_psi(rng, n, nimpl):
     return c
 
 
+# ---------------------------------------------------------------- Marple's fast recursions (C14)
+def marple_datamat(x, p, mod):
+    """rows n = p..N-1 of [x[n], .., x[n-p]]; for the modified method followed by the rows [conj x[n-p], .., conj x[n]]"""
+    x = np.asarray(x); N = len(x)
+    T = np.array([[x[n - j] for j in range(p + 1)] for n in range(p, N)])
+    if mod:
+        T = np.vstack([T, np.array([[np.conj(x[n - p + j]) for j in range(p + 1)] for n in range(p, N)])])
+    return T
+
+
+def marple_kappa2(x, p, mod):
+    """largest squared condition number of the forward and backward regressor matrices of every order 1..p (the recursion passes through all of them)"""
+    k2 = 1.0
+    for q in range(1, p + 1):
+        T = marple_datamat(x, q, mod)
+        for Tq in (T, T[:, ::-1]):
+            sv = np.linalg.svd(Tq[:, 1:], compute_uv=False)
+            k2 = max(k2, np.inf if sv[-1] <= 0 else float((sv[0] / sv[-1]) ** 2))
+    return k2
+
+
+def marple_input(rng, i, mod):
+    """(kind, x, p): low-bit dyadic records; kinds cycle so that every branch of both routines is reached in every run"""
+    kinds = ['noise', 'noise', 'exp+noise', 'noise', 'scaled', 'order0', 'noise', 'short', 'degenerate', 'noise', 'exp+noise', 'toolong']
+    kind = kinds[i % len(kinds)]
+    cplx = bool(rng.integers(0, 2)); p = int(rng.integers(1, 5)); N = int(rng.integers(max(5, 2 * p + 1), 12))
+    x = lowbit(rng, N, cplx, bits=int(rng.integers(2, 4)))
+    if kind == 'exp+noise':
+        zs = np.array([1, 1j, -1, -1j])[rng.permutation(4)[:p]]
+        amp = rng.integers(1, 4, size=p) + 1j * rng.integers(-2, 3, size=p)
+        x = sum(amp[j] * np.round(zs[j] ** np.arange(N)) for j in range(p)) + lowbit(rng, N, True, bits=1) / 4.0
+        cplx = True
+    elif kind == 'scaled':
+        x = x * 2.0 ** int(rng.choice([-12, 16, 24]))
+    elif kind == 'order0':
+        p = 0
+    elif kind == 'short':                       # fewer equations than the property's domain N - p >= p; N = order + 1 is the least the recursions index safely
+        p = int(rng.integers(1, 4)); N = p + int(rng.integers(1, 3)); x = lowbit(rng, N, cplx, bits=2)
+    elif kind == 'degenerate':                  # perfectly predictable / rank-deficient data: divisions by zero (total in IR and model), P <= 0 (ValueError of modcovar_marple)
+        N = int(rng.integers(5, 9)); p = int(rng.integers(2, 4))
+        x = [np.array([1.0, -1.0] * 5)[:N], np.ones(N), np.array([1.0, 1j, -1.0, -1j] * 3)[:N], np.array([1.0, 2.0, 4.0, 8.0, 16.0, 32.0, 64.0, 128.0, 256.0])[:N]][int(rng.integers(0, 4))]
+        cplx = bool(np.iscomplexobj(x))
+    elif kind == 'toolong':                     # order > len(x): the assertion of arcovar_marple (modcovar_marple has none: not generated for it)
+        if mod:
+            kind = 'noise'
+        else:
+            N = int(rng.integers(1, 4)); p = N + int(rng.integers(1, 3)); x = lowbit(rng, N, cplx, bits=2)
+    return kind, np.asarray(x, dtype=complex) if cplx else np.asarray(x, dtype=float), p
+
+
+def gen_marple(fname, mod):
+    def gen(rng, n, nimpl):
+        import spectrum.covar, spectrum.modcovar
+        f = getattr(sys.modules['spectrum.modcovar' if mod else 'spectrum.covar'], fname)
+        c = Cases(fname)
+        c.spec_descr = ('IR program of %s (regenerated from the source) vs the exact least-squares model Model/Ls.v (certified solver): coefficients and per-sample '
+                        'minimum%s, zero tolerance at QcC' % (fname, '' if mod else ', forward and backward'))
+        i = 0
+        while len(c.exact) < n:
+            kind, x, p = marple_input(rng, i, mod); i += 1
+            cplx = bool(np.iscomplexobj(x)); N = len(x)
+            tag = 'false' if cplx else 'true'
+            with np.errstate(all='ignore'):
+                res = call_impl(f, np.array(x), p)
+            c.add('q_%s prog_%s %s %s %d%%nat' % (fname, fname, tag, czl(x), p), impl=res, x=vlib.hexv(x), order=p, kind=kind)
+            if kind in ('order0', 'degenerate', 'toolong', 'short'):
+                if kind in ('order0', 'toolong') and len(c.impl) < nimpl + 2:
+                    out, ex = res
+                    args = '[%s; %s]' % (A_(not cplx, x), I_(p))
+                    if ex is not None and ex in EXC:
+                        c.add_impl('ir_raises (qrun prog_%s %s) %s' % (fname, args, ex), x=vlib.hexv(x), order=p, impl_raised=ex)
+                    elif ex is None:
+                        c.add_impl('ir_close %s (qrun prog_%s %s) %s' % (tolq(1e-12), fname, args, outs(*out)), x=vlib.hexv(x), order=p)
+                continue
+            k2 = marple_kappa2(x, p, mod)
+            if not np.isfinite(k2) or k2 > 1e5:
+                continue                         # (the exact case above stays; no least-squares / implementation comparison on ill-conditioned data)
+            # (b) the property's clause, directly on the regenerated program
+            c.add_spec('ir_%s_ls prog_%s %s %s %d%%nat' % ('mod' if mod else 'cov', fname, tag, czl(x), p), x=vlib.hexv(x), order=p, kind=kind,
+                       what='IR program == exact least squares (coefficients, per-sample minimum)')
+            # (c) sanity of the translation: IR run vs the implementation's floats
+            out, ex = res
+            if len(c.impl) < nimpl and kind != 'scaled' and ex is None and all(np.all(np.isfinite(np.asarray(v, dtype=complex))) for v in out):
+                args = '[%s; %s]' % (A_(not cplx, x), I_(p))
+                c.add_impl('ir_close %s (qrun prog_%s %s) %s' % (tolq(1e-9 * k2), fname, args, outs(*out)), x=vlib.hexv(x), order=p)
+        return c
+    return gen
+
+
 GENERATORS = {'LEVINSON': gen_LEVINSON, 'HERMTOEP': gen_HERMTOEP, 'TOEPLITZ': gen_TOEPLITZ, 'levup': gen_levup, 'levdown': gen_levdown,
-              'arburg': gen_arburg, 'CORRELATION': gen_CORRELATION, 'minvar_psi': gen_minvar_psi}
+              'arburg': gen_arburg, 'CORRELATION': gen_CORRELATION, 'minvar_psi': gen_minvar_psi,
+              'arcovar_marple': gen_marple('arcovar_marple', False), 'modcovar_marple': gen_marple('modcovar_marple', True)}
 EXACT_BUDGET = {'LEVINSON': (64, 400), 'HERMTOEP': (48, 300), 'TOEPLITZ': (56, 300), 'levup': (45, 200), 'levdown': (44, 200),
-                'arburg': (65, 400), 'CORRELATION': (68, 400), 'minvar_psi': (48, 300)}
+                'arburg': (65, 400), 'CORRELATION': (68, 400), 'minvar_psi': (48, 300),
+                'arcovar_marple': (36, 180), 'modcovar_marple': (36, 180)}
+# programs whose comparators live in a module of their own (imported by the case files only when such a program is tied)
+EXTRA_MODULES = {'arcovar_marple': 'Spectrum.Model.LoopIRMarple', 'modcovar_marple': 'Spectrum.Model.LoopIRMarple'}
 
 # ---------------------------------------------------------------- LEVINSON: translation + theorem
 LEV_PROOF = 'Proofs/LoopIRLevinson.v'
@@ -1211,6 +1403,65 @@ Proof. intros. rewrite prog_LEVINSON_is_ref. apply levinson_ir_real; assumption.
 Print Assumptions loopir_LEVINSON_complex.
 Print Assumptions loopir_LEVINSON_real.
 """
+
+
+# ---------------------------------------------------------------- Marple routines: translation + theorems for the order-0 branches / the argument check
+MARPLE_PROOF = 'Proofs/LoopIRMarple0.v'
+MARPLE_BLOCK_HEAD = """
+(* The programs regenerated on this run are, term for term, the ones Proofs/LoopIRMarple0.v is about: its theorems apply. *)
+Require Import Spectrum.Theory.Ops Spectrum.Theory.Vec Spectrum.Model.CovarMarple Spectrum.Proofs.LoopIRMarple0.
+"""
+MARPLE_BLOCKS = {
+    'arcovar_marple': (['loopir_arcovar_marple_assert', 'loopir_arcovar_marple_order0', 'loopir_arcovar_marple_order1'], """
+Lemma prog_arcovar_marple_is_ref : prog_arcovar_marple = prog_arcovar_marple_gen0.
+Proof. reflexivity. Qed.
+Theorem loopir_arcovar_marple_assert :
+  forall (F : Type) (OF : Ops F) (L : Laws OF) (feq : F -> F -> bool) (stop : Z -> F -> F -> bool) (t : bool) (x : list F) (order : nat),
+  (length x < order)%nat ->
+  run feq stop prog_arcovar_marple [Some (VArr t x); Some (VI (Z.of_nat order))] = OErr AssertionError /\\ arcovar_marple x order = None.
+Proof. intros. rewrite prog_arcovar_marple_is_ref. apply arcovar_marple_ir_assert; assumption. Qed.
+Theorem loopir_arcovar_marple_order0 :
+  forall (F : Type) (OF : Ops F) (L : Laws OF) (feq : F -> F -> bool) (stop : Z -> F -> F -> bool) (t : bool) (x : list F),
+  x <> [] ->
+  run feq stop prog_arcovar_marple [Some (VArr t x); Some (VI 0)] =
+  match arcovar_marple x 0 with
+  | Some (af, pf, ab, pb) => ORet [VArr false af; VF pf; VArr false ab; VF pb; VI 0]
+  | None => OErr AssertionError
+  end.
+Proof. intros. rewrite prog_arcovar_marple_is_ref. apply arcovar_marple_ir_order0; assumption. Qed.
+Theorem loopir_arcovar_marple_order1 :
+  forall (F : Type) (OF : Ops F) (L : Laws OF) (feq : F -> F -> bool) (stop : Z -> F -> F -> bool) (t : bool) (x : list F),
+  x <> [] ->
+  run feq stop prog_arcovar_marple [Some (VArr t x); Some (VI 1)] =
+  match arcovar_marple x 1 with
+  | Some (af, pf, ab, pb) => ORet [VArr false af; VF pf; VArr false ab; VF pb; VArr true []]
+  | None => OErr AssertionError
+  end.
+Proof. intros. rewrite prog_arcovar_marple_is_ref. apply arcovar_marple_ir_order1; assumption. Qed.
+"""),
+    'modcovar_marple': (['loopir_modcovar_marple_order0', 'loopir_modcovar_marple_order1'], """
+Lemma prog_modcovar_marple_is_ref : prog_modcovar_marple = prog_modcovar_marple_gen0.
+Proof. reflexivity. Qed.
+Theorem loopir_modcovar_marple_order0 :
+  forall (F : Type) (OF : Ops F) (L : Laws OF) (feq : F -> F -> bool) (stop : Z -> F -> F -> bool) (t : bool) (x : list F),
+  x <> [] ->
+  run feq stop prog_modcovar_marple [Some (VArr t x); Some (VI 0)] =
+  match modcovar_marple x 0 with
+  | Some (a, p) => ORet [VArr true a; VF p; VArr true []]
+  | None => OErr ValueError
+  end.
+Proof. intros. rewrite prog_modcovar_marple_is_ref. apply modcovar_marple_ir_order0; assumption. Qed.
+Theorem loopir_modcovar_marple_order1 :
+  forall (F : Type) (OF : Ops F) (L : Laws OF) (feq : F -> F -> bool) (stop : Z -> F -> F -> bool) (t : bool) (x : list F),
+  x <> [] ->
+  run feq stop prog_modcovar_marple [Some (VArr t x); Some (VI 1)] =
+  match modcovar_marple x 1 with
+  | Some (a, p) => ORet [VArr false a; VF p; VArr false [p]]
+  | None => OErr ValueError
+  end.
+Proof. intros. rewrite prog_modcovar_marple_is_ref. apply modcovar_marple_ir_order1; assumption. Qed.
+"""),
+}
 
 
 # ---------------------------------------------------------------- CORRELATION: translation + theorem
@@ -1402,6 +1653,13 @@ def levinson_reference_text():
     return reference_text('LEVINSON')
 
 
+def reference_text_in(proof, name):
+    """the program text of <name> that <proof> was proved about (between its BEGIN/END GENERATED <name> markers)"""
+    t = open(os.path.join(vlib.COQ, proof)).read()
+    m = re.search(r'\(\* BEGIN GENERATED %s[^\n]*\*\)\n(.*?)\(\* END GENERATED %s \*\)' % (name, name), t, re.S)
+    return m.group(1).replace('prog_%s_gen0' % name, 'prog_%s' % name) if m else None
+
+
 TRUSTED_LINE = ("loop-IR tie: the translator tools/props/_loopir.py (Python ast -> IR, fail-closed) and the IR interpreter coq/Model/LoopIR.v "
                 "(semantics of the accepted Python/numpy fragment; arrays by value, no rounding) are trusted; the IR program is regenerated from the "
                 "snapshot source on every run and evaluated exactly (QcC, zero tolerance) against the hand-written model; for LEVINSON, CORRELATION, "
@@ -1458,12 +1716,35 @@ def loopir_tie(ctx, names):
         if same:
             gen += THEOREMS[nm]['block']; thms = thms + THEOREMS[nm]['theorems']
             info[nm]['theorems_instantiated'] = THEOREMS[nm]['theorems']
+    mar = [nm for nm in MARPLE_BLOCKS if nm in progs]
+    if mar:
+        # translation + theorems (order-0 branches, argument check): claimed only for the very program text they were proved about
+        claimed = []
+        for nm in mar:
+            ref = reference_text_in(MARPLE_PROOF, nm)
+            same = ref is not None and ' '.join(ref.split()) == ' '.join(progs[nm].coq().split())
+            info[nm]['theorem'] = ('applies: the regenerated program is the one %s is about (re-checked by reflexivity inside Coq)' % MARPLE_PROOF) if same else \
+                'does not apply: the regenerated program text differs from the one proved about; the exact evaluation tie decides'
+            if same:
+                claimed.append(nm)
+        if claimed:
+            vo = os.path.join(vlib.COQ, MARPLE_PROOF[:-2] + '.vo')
+            if not os.path.exists(vo) or os.path.getmtime(vo) < os.path.getmtime(os.path.join(vlib.COQ, MARPLE_PROOF)):
+                rc, log = vlib.make_cone(MARPLE_PROOF[:-2] + '.vo')
+                if rc != 0:
+                    ctx.broken.append({'theorem': 'loopir: build of %s' % MARPLE_PROOF, 'where': MARPLE_PROOF, 'log': log[-1500:]}); claimed = []
+        if claimed:
+            gen += MARPLE_BLOCK_HEAD + ''.join(MARPLE_BLOCKS[nm][1] for nm in claimed)
+            names = [t for nm in claimed for t in MARPLE_BLOCKS[nm][0]]
+            gen += ''.join('Print Assumptions %s.\n' % t for t in names)
+            thms = thms + names
     ok, _ = ctx.check_generated('LoopIR_%s' % ctx.pid, gen, thms)
     if not ok:
         if not thms:
             return
         # the programs themselves may still be fine: the exact tie below decides about them
-    pre = PRE + defs
+    extra = sorted(set(EXTRA_MODULES[nm] for nm in progs if nm in EXTRA_MODULES))
+    pre = PRE + ''.join('Require Import %s.\n' % m for m in extra) + defs
     jobs = []
     for nm, p in progs.items():
         rng = np.random.default_rng([int(ctx.seed) % (1 << 32), int(hashlib.md5(nm.encode()).hexdigest()[:8], 16)])
@@ -1475,18 +1756,23 @@ def loopir_tie(ctx, names):
             ctx.count('loopir/%s/exact/implementation-%s' % (nm, m['implementation']))
         ctx.count('loopir/%s/vs-implementation' % nm, len(c.impl))
         info[nm].update({'exact_cases': len(c.exact), 'implementation_cases': len(c.impl)})
+        if c.spec:
+            ctx.count('loopir/%s/vs-exact-specification' % nm, len(c.spec)); info[nm]['specification_cases'] = len(c.spec)
         jobs.append((nm, c))
 
     def one(job):
         nm, c = job
         bad = ctx.coq_cases('loopir_%s' % nm, pre, c.exact, shard=ctx.q(24, 100), descr='IR program of %s (regenerated from the source) vs the hand-written model: exact equality at QcC' % nm)
         bad2 = ctx.coq_cases('loopir_%s_impl' % nm, pre, c.impl, descr='IR program of %s run at QcC vs the implementation (float tolerance): sanity of the translation' % nm)
-        return nm, c, bad, bad2
+        bad3 = ctx.coq_cases('loopir_%s_ls' % nm, pre, c.spec, shard=ctx.q(12, 45), descr=c.spec_descr) if c.spec else []
+        return nm, c, bad, bad2, bad3
     with ThreadPoolExecutor(max_workers=8) as ex:
         res = list(ex.map(one, jobs))
-    for nm, c, bad, bad2 in res:
+    for nm, c, bad, bad2, bad3 in res:
         for i in bad:
             ctx.corr_disagreement('loopir:%s' % nm, i, c.meta[i])
         for i in bad2:
             ctx.corr_disagreement('loopir:%s (IR run vs implementation)' % nm, i, c.impl_meta[i])
+        for i in bad3:
+            ctx.corr_disagreement('loopir:%s (IR run vs exact least squares)' % nm, i, c.spec_meta[i])
     info['wall_s'] = round(time.time() - t0, 2)
